@@ -60,6 +60,7 @@ type vecEnv struct {
 	thrF      [][]float64
 	rng       *rand.Rand
 	minTrain  int // documented minimum training size to try first (0: off)
+	dupTrain  bool // training vectors repeated at the positions k-means takes its initial centroids from: empty clusters
 	trainN    int // size every history trains on (0: the whole set)
 }
 
@@ -215,6 +216,26 @@ func (e *vecEnv) buildPool() {
 	}
 	for i := 0; i < e.NV && i < len(tv); i += 2 {
 		copy(tv[i], e.vecs[i]) // some pool vectors are training vectors
+	}
+	if e.dupTrain {
+		k := e.nlist
+		if e.kind == "pq" {
+			k = 1 << e.nbits
+		}
+		n := len(tv)
+		if e.minTrain > 0 && e.minTrain < n {
+			n = e.minTrain
+		}
+		step := n / k
+		if step < 1 {
+			step = 1
+		}
+		if k >= 2 && step < len(tv) {
+			copy(tv[step], tv[0]) // the second initial centroid coincides with the first: its cluster stays empty
+		}
+		if k >= 4 && (k-1)*step < len(tv) {
+			copy(tv[(k-1)*step], tv[(k-2)*step])
+		}
 	}
 	e.train = make([]comet.VectorNode, len(tv))
 	for i, v := range tv {
@@ -379,7 +400,7 @@ func maxAbs(tabs ...[][]float64) float64 {
 	for _, t := range tabs {
 		for _, r := range t {
 			for _, x := range r {
-				if math.Abs(x) > m {
+				if !math.IsInf(x, 0) && math.Abs(x) > m {
 					m = math.Abs(x)
 				}
 			}
@@ -401,6 +422,15 @@ func (e *vecEnv) fixTable(t [][]float64) ([][]int64, error) {
 	for i, r := range t {
 		out[i] = make([]int64, len(r))
 		for j, x := range r {
+			if math.IsNaN(x) || math.IsInf(x, 0) || math.Abs(x*e.scale) > 1.9e9 {
+				// a quantiser that is not a finite vector (e.g. a NaN centroid): rendered with the trace's tokens, i.e. as
+				// far as can be; the specification then judges the searches against that
+				out[i][j] = fx(x, e.scale)
+				if !math.IsNaN(x) && !math.IsInf(x, 0) {
+					out[i][j] = int64(math.Copysign(1.9e9, x))
+				}
+				continue
+			}
 			out[i][j] = int64(math.Round(x * e.scale))
 			if e.lattice && math.Abs(float64(out[i][j])-x*e.scale) > 1e-9 {
 				return nil, fmt.Errorf("lattice table entry %v is not exact at scale %v: eps = 0 would be unsound", x, e.scale)
@@ -931,11 +961,23 @@ func drvVec(args []string) error {
 	dir := cf.fs.String("dir", ".", "output directory for trace.ndjson, MCVec.tla, MCVec.cfg")
 	reAdd := cf.fs.Bool("readd", true, "specification flag ReAddOK written into the cfg")
 	minTrain := cf.fs.Bool("mintrain", false, "train on the smallest training set the index documents as sufficient")
+	dupTrain := cf.fs.Bool("duptrain", false, "repeat training vectors where k-means takes its initial centroids: clusters that stay empty")
 	cf.fs.Parse(args)
 	e := &vecEnv{kind: *kind, metric: comet.DistanceKind(*metric), dim: *dim, NV: 14, NQ: 5, lattice: *lattice,
 		nlist: *nlist, M: *pqM, nbits: *nbits, hM: *pqM, efC: 64, efS: 64, rng: rand.New(rand.NewSource(*cf.seed))}
 	if e.kind == "hnsw" && e.hM < 2 {
 		e.hM = 2
+	}
+	e.dupTrain = *dupTrain
+	if *minTrain {
+		switch e.kind {
+		case "ivf":
+			e.minTrain = e.nlist
+		case "pq":
+			e.minTrain = 1 << e.nbits
+		case "ivfpq":
+			e.minTrain = e.nlist * 10
+		}
 	}
 	e.buildPool()
 	if e.kind == "hnsw" {
@@ -949,16 +991,6 @@ func drvVec(args []string) error {
 			return l, true
 		}
 		defer func() { comet.VerifLevelFunc = nil }()
-	}
-	if *minTrain {
-		switch e.kind {
-		case "ivf":
-			e.minTrain = e.nlist
-		case "pq":
-			e.minTrain = 1 << e.nbits
-		case "ivfpq":
-			e.minTrain = e.nlist * 10
-		}
 	}
 	if _, err := e.newIndex(); err != nil {
 		// the constructor refuses these parameters: nothing to check for this configuration
